@@ -237,7 +237,6 @@ func c06Wire(c *Ctx, run *ev.Run) {
 	}
 }
 
-
 // c06Environmental reports whether an error text is of the kind a starved or exhausted machine
 // produces on its own (timeouts, resets, refused or closed connections). Anything else - a body
 // that ends early, a malformed response - is the exchange's own business and is judged.
